@@ -802,8 +802,11 @@ func (i *interpreter) tryStringMethod(itf iface, name string) (res *string) {
 // package-level variables.  Paths must not mutate it (checked by the store
 // trap when enabled).
 type workerBase struct {
-	globals map[*ssa.Global]*value
-	inited  bool
+	globals     map[*ssa.Global]*value
+	inited      bool
+	memo        map[string]value
+	frozenCells map[*value]struct{}
+	frozenMaps  map[*omap]struct{}
 }
 
 func newInterpreter(e *Engine, sol *solverProc, ps *pathState, base *workerBase, funcs map[string]string, models map[string]bool) *interpreter {
